@@ -66,6 +66,44 @@ func runC18a(sc C18aSc, c *kit.Case) (v *kit.Violation) {
 	if got, want := dab.AsByteArray(), refmodel.Xor(a, b); got != want {
 		return kit.Violatef("C18:distance-value", "d(%x,%x) = %x, want %x", a, b, got, want)
 	}
+	// the exported in-place form, with the destination being a fresh value, the first operand, the second
+	// operand, or both
+	want := refmodel.Xor(a, b)
+	{
+		var d int160.T
+		x, y := ia, ib
+		d.Xor(&x, &y)
+		if d.AsByteArray() != want {
+			return kit.Violatef("C18:distance-value", "d.Xor(&x,&y) with x=%x y=%x gave %x, want %x", a, b, d.AsByteArray(), want)
+		}
+		x, y = ia, ib
+		x.Xor(&x, &y)
+		if x.AsByteArray() != want {
+			return kit.Violatef("C18:distance-value", "x.Xor(&x,&y) (destination is the first operand) with x=%x y=%x gave %x, want %x", a, b, x.AsByteArray(), want)
+		}
+		x, y = ia, ib
+		y.Xor(&x, &y)
+		if y.AsByteArray() != want {
+			return kit.Violatef("C18:distance-value", "y.Xor(&x,&y) (destination is the second operand) with x=%x y=%x gave %x, want %x", a, b, y.AsByteArray(), want)
+		}
+		x = ia
+		x.Xor(&x, &x)
+		if !x.IsZero() {
+			return kit.Violatef("C18:distance-zero", "x.Xor(&x,&x) with x=%x gave %x", a, x.AsByteArray())
+		}
+		// the accessors agree with each other
+		if got := int160.FromBytes(ia.Bytes()); got != ia {
+			return kit.Violatef("C18:distance-value", "FromBytes(Bytes(%x)) = %x", a, got.AsByteArray())
+		}
+		if got := int160.FromByteString(ia.ByteString()); got != ia {
+			return kit.Violatef("C18:distance-value", "FromByteString(ByteString(%x)) = %x", a, got.AsByteArray())
+		}
+		for _, bit := range []int{0, 1, 7, 8, 79, 80, 158, 159} {
+			if got, wantBit := ia.GetBit(bit), a[bit/8]>>(7-uint(bit%8))&1 == 1; got != wantBit {
+				return kit.Violatef("C18:distance-value", "GetBit(%d) of %x = %v", bit, a, got)
+			}
+		}
+	}
 	dat, dbt := ia.Distance(it), ib.Distance(it)
 	if got, want := sign(dat.Cmp(dbt)), refmodel.DistCmp(a, b, t); got != want {
 		return kit.Violatef("C18:cmp-not-unsigned-order", "Cmp(d(%x,t), d(%x,t)) = %d, big.Int says %d (t=%x)", a, b, got, want, t)
